@@ -245,3 +245,17 @@ async def readonly_refuses(shape, pos: int, block: bytes, n: int):
     ensures("async-write-refused", refused2)
     ensures("no-device-write", len(s.calls) == 0)
     cover("reached-end", True)
+
+
+# temperature items: the value domain of C02 includes temperatures (the float arithmetic is C14's)
+def _register_temperature_contracts():
+    from contracts import c14_temp
+    harness(prop="C02", target="geckolib.driver.accessor:GeckoTempStructAccessor._set_value", uses=["raw_word_contract"], timeout=300,
+            cases="c14_units", name="temperature_write_then_read")(c14_temp.representable_temperature_reads_back_exactly)
+    harness(prop="C02", target="geckolib.driver.accessor:GeckoTempStructAccessor.async_set_value", uses=["raw_word_contract"], timeout=300,
+            cases="c14_units", name="temperature_write_then_read_async")(c14_temp.representable_temperature_reads_back_exactly_async)
+    harness(prop="C02", target="geckolib.driver.accessor:GeckoTempStructAccessor.async_set_value", uses=["raw_word_contract"],
+            name="temperature_sync_async_same_write")(c14_temp.sync_async_same_word)
+
+
+_register_temperature_contracts()
